@@ -301,6 +301,8 @@ func c12Check(c c12Case) vfResult {
 	}
 	if direct != c.Want {
 		r.Err = fmt.Errorf("charset.From%s returns %q, want %q for %s", strings.ToUpper(c.Kind), direct, c.Want, vfQ(h))
+	} else if err := vfRoutes(doc, c.Limit, m); err != nil {
+		r.Err = fmt.Errorf("limit %d: %v; doc %s", c.Limit, err, vfQ(doc))
 	}
 	return r
 }
